@@ -684,6 +684,25 @@ PPL::MIP_Problem::process_pending_constraints() {
   std::deque<bool> is_satisfied_inequality;
   std::deque<bool> is_nonnegative_variable;
   std::deque<bool> is_remergeable_variable;
+
+  // parse_constraints() evaluates the pending inequalities at
+  // `last_generator' to find those that are already satisfied and need
+  // no artificial variable: this requires `last_generator' to be the basic
+  // solution of `tableau'. This is not the case after solve() or
+  // is_satisfiable() on a problem having integer variables, as they store
+  // in `last_generator' the point found by branch-and-bound on other
+  // tableaux. Hence recompute it from the tableau, when the tableau
+  // encodes all the space dimensions; otherwise do not trust it.
+  bool last_generator_is_basic_solution = true;
+  if (internal_space_dim > 0) {
+    if (internal_space_dim == external_space_dim) {
+      compute_generator();
+    }
+    else {
+      last_generator_is_basic_solution = false;
+    }
+  }
+
   if (!parse_constraints(additional_tableau_rows,
                          additional_slack_vars,
                          is_tableau_constraint,
@@ -692,6 +711,11 @@ PPL::MIP_Problem::process_pending_constraints() {
                          is_remergeable_variable)) {
     status = UNSATISFIABLE;
     return;
+  }
+  if (!last_generator_is_basic_solution) {
+    // Adding an artificial variable is always a correct choice.
+    std::fill(is_satisfied_inequality.begin(),
+              is_satisfied_inequality.end(), false);
   }
 
   // Merge back any variable that was previously split into a positive
